@@ -349,7 +349,7 @@ def nest_program(rnd):
     of the body), triangular."""
     from vf.flite import B as B_, V as V_, I as I_, R as R_, A as A_
     shape = rnd.choice(["perfect", "stmt_after", "stmt_before", "triangular",
-                        "perfect3", "after3"])
+                        "perfect3", "after3", "hoistable", "hoistable"])
     core = [["assign", A_("m2", V_("i"), V_("j")),
              B_("+", A_("m2", V_("i"), V_("j")), R_(1.0))]]
     if shape in ("perfect3", "after3"):
@@ -358,6 +358,12 @@ def nest_program(rnd):
              B_("+", A_("m2", V_("i"), V_("j")), R_(1.0))]]]]
         if shape == "after3":
             core.append(["assign", A_("m2", V_("i"), V_("j")), R_(3.0)])
+    if shape == "hoistable":
+        # a loop-invariant assignment inside the inner loop: HoistTrans moves
+        # it into the outer body AFTER a collapse clause was accepted
+        core = [["assign", V_("r1"), B_("*", V_("x2"), R_(2.0))],
+                ["assign", A_("m2", V_("i"), V_("j")),
+                 B_("+", A_("m2", V_("i"), V_("j")), V_("r1"))]]
     jlo = V_("i") if shape == "triangular" else I_(1)
     inner = ["do", "j", jlo, V_("n"), None, core]
     body = [inner]
@@ -412,6 +418,15 @@ def directed_batch(arg):
                             except PSycloneError:
                                 part.count("refused")
                                 continue
+                        if shape == "hoistable":
+                            from psyclone.psyir.nodes import Assignment
+                            try:
+                                P.HoistTrans().apply(
+                                    tree.walk(Loop)[1].walk(Assignment)[0])
+                                hist.append(("HoistTrans", None))
+                                part.count("accepted:HoistTrans")
+                            except PSycloneError:
+                                part.count("refused")
                         try:
                             out = psy.write(tree)
                         except PSycloneError:
